@@ -121,7 +121,18 @@ pub fn run(cfg: &Cfg, seed: u64) -> (Arc<World>, crate::sim::SimStats) {
                 }
             }};
         }
-        if cfg.shared {
+        if cfg.shared && seed % 2 == 0 {
+            // the conversion path: a per-service layer turned into a shared one
+            let mut b = CacheLayer::<Req, u32>::builder().max_size(cfg.max_size).key_extractor(|r: &Req| r.key);
+            if !cfg.default_policy {
+                b = b.eviction_policy(policy);
+            }
+            if let Some(t) = cfg.ttl_us {
+                b = b.ttl(Duration::from_micros(t));
+            }
+            let layer = b.build().shared::<Resp>();
+            go!(layer);
+        } else if cfg.shared {
             let mut b = SharedCacheLayer::<Req, u32, Resp>::builder().max_size(cfg.max_size).key_extractor(|r: &Req| r.key);
             if !cfg.default_policy {
                 b = b.eviction_policy(policy);
